@@ -9,10 +9,11 @@ func initTimer(t *time.Timer, timeout time.Duration) *time.Timer {
 	if t == nil {
 		return time.NewTimer(timeout)
 	}
-	if t.Reset(timeout) {
-		// developer sanity-check
-		panic("BUG: active timer trapped into initTimer()")
-	}
+	// The timer was stopped by stopTimer before it was put aside. Since Go 1.23
+	// Reset may still report true for such a timer while the runtime is
+	// finishing the (already cancelled) delivery of its previous expiry, so the
+	// result cannot be used as a misuse check.
+	t.Reset(timeout)
 	return t
 }
 
